@@ -18,7 +18,7 @@ import (
 // in  = [np nf (fexists)*nf (pok)*np] then events
 //       1 start | 2 stop | 3 verify | 4 allocation result: had_existing had_missing (padonly)*np (pok)*np (fexists)*nf
 //       5 verification result | 6 stop announcer done | 7 i: piece i downloaded from an honest seed
-//       8 the disk changed while stopped: (fexists)*nf (pok)*np
+//       8 the disk changed while stopped: (fexists)*nf (pok)*np | 9 the periodic resume write
 // obs = after every event [status hasbf (bits)*np completed handles doVerify haspersisted (bits)*np crashed]
 
 type lifeH struct {
@@ -266,6 +266,9 @@ func genLife(r *rand.Rand, tier string) Case {
 			x = script[i]
 		}
 		switch {
+		case x < 4:
+			v.PersistNow()
+			h.in = append(h.in, 9)
 		case x < 22:
 			v.Start()
 			h.in = append(h.in, 1)
